@@ -156,6 +156,13 @@ def int_points():
                 2 ** 63 - 513, 2 ** 63 - 511, 2 ** 64 - 1024, 2 ** 64 - 1025, 2 ** 64 - 2048,
                 2 ** 64 - 2049, 2 ** 24 + 3, 2 ** 25 + 2, 2 ** 25 + 6, 2 ** 40 + 2 ** 16,
                 2 ** 40 + 2 ** 16 + 1, 2 ** 40 + 3 * 2 ** 16])
+    # neighbours of the midpoints between consecutive float32 values (24-bit significand): a conversion
+    # of a 64-bit integer to float32 that goes through float64 first rounds twice and misses these
+    for k in (24, 25, 30, 40, 52, 53, 54, 55, 57, 60, 62, 63):
+        for mid in (2 ** k + 2 ** (k - 24), 2 ** k + 3 * 2 ** (k - 24)):
+            for d in (-1, 0, 1):
+                pts.add(mid + d)
+                pts.add(-(mid + d))
     return pts
 
 
